@@ -11,6 +11,7 @@ CONSTANTS
   MaxRestarts = 0
   Kinds = {"waive", "equal", "future"}
   Pols = {"leader"}
+  SrcSet = {"request"}
   Vias = {"api"}
   MaxHolds = 1
   MaxSnaps = 0
